@@ -178,6 +178,8 @@ SEEDS = {
     "C01i-row-copy-cache-wrong-initial-state": ("C01", "a displacement field that BEGINS with rows exactly at rest (row 0 onwards) and charge in those rows: a 'same offset as the row before' shortcut starts with lastoffs = 0 and copies never-computed scratch entries (weight 0) - those rows are zeroed", ["C02", "C08"]),
     "C03i-fraction-from-offset-hair-beyond-zero": ("C03", "a grid shift that puts a mesh point a hair beyond the axis zero (--PhaseSpaceShiftX/Y 0.49998): the kick of that row is about -1e-6 cells, the fraction is taken from the offset and the origin from the rounded sum - the row through the bunch centre moves one cell every step", ["C02", "C01"]),
     "C08i-identical-bunch-copy-from-bunch0": ("C08", "three or more bunches with a run of bit-identical bunches that does not start at bunch 0 and differs from bunch 0 (-I 2e-3 1e-3 1e-3), no impedance: the drift copies the result of 'the predecessor' from bunch 0's block", ["C03"]),
+    "C04i-quadratic-stencil-one-cell-high": ("C04", "--InterpolationPoints 3 with a number of steps per period that is not small against the grid size: the three nodes sit one cell too high (weights unchanged), every kick and drift carries the bunch one extra cell, the centroid spirals out", ["C02", "C03"]),
+    "C05i-wake-table-drops-whole-cells": ("C05", "a wake kick of one cell per step or more in the core (fine grid, few steps per period, order-one potential-well distortion, e.g. -s 128 -N 24 at 15 mA): the wake map's own table builder applies W - floor(W) while the record shows W", ["C08", "C01"]),
     "C10-": ("C10", "", []),
     "C17-": ("C17", "", []),
 }
